@@ -570,19 +570,20 @@ def decode_cols(v):
 class Check(PropertyCheck):
     id = 'C04'
     props = ['C04.v']
-    static_targets = ['theories/Model/AsMatrix.vo', 'theories/Lemmas/AsMatrixL.vo', 'theories/Lemmas/AsMatrixExecL.vo']
+    static_targets = ['theories/Model/AsMatrix.vo', 'theories/Lemmas/AsMatrixL.vo', 'theories/Lemmas/AsMatrixExecL.vo',
+                      'theories/Lemmas/AsMatrixLoopL.vo']
     coq_header = A.COQ_HEADER + 'From Furax Require Import Model.Wf Model.AsMatrix.\n'
     shard = 60
     workers = 8
     partial = (
-        'linearity (denote_homogeneous / denote_additive / denote_linear) is proved for all expression trees; '
-        'apply_is_matvec and override_eq_generic are proved for all expression trees (identity, scalar, sums, block '
-        'row/diagonal/column over nested containers, ravel/reshape, lazy inverses, compositions) UNDER two premises that '
-        'are not proved here: LOOP (the transcribed fori_loop `as_matrix_generic` builds the matrix of the columns '
-        '`generic_columns`) and HON (C05: a well-formed operator returns values of its declared output size); both are '
-        'validated by the correspondence on every case (model loop = model columns = the three real dense forms). '
-        'Leaf-level overrides (n-d DiagonalOperator, Toeplitz, DiagonalInverse: C11/C09) and ravel/reshape enter as '
-        'leaf premises (HOV, HRESH); the second stage (discharging lin_facts for Exec.leafsem) was not done'
+        'linearity (denote_homogeneous / denote_additive / denote_linear) is proved for all expression trees; LOOP (the '
+        'transcribed fori_loop `as_matrix_generic` builds exactly the matrix of the columns `generic_columns`) is proved '
+        'for every operator term without hypotheses (Lemmas/AsMatrixLoopL.v: generic_loop_is_columns); apply_is_matvec '
+        'holds for every honest operator; override_represents / override_eq_generic hold for all expression trees under '
+        'the named premises HON (C05 honesty: derivable via honesty_premise_from_C05) and the leaf-level premises HOV '
+        '(n-d DiagonalOperator, Toeplitz, DiagonalInverse overrides: proved in the models of C11/C09), HRESH (ravel/reshape '
+        '= eye), HINV/HSOLVE (jnp.linalg.inv returns an inverse; a lazy inverse solves its system): these enter as Section '
+        'hypotheses, validated by the correspondence on every case; discharging lin_facts for Exec.leafsem was not done'
     )
     trusted = [
         'leaf operators (dense einsum atoms, index, pack, move-axis, Toeplitz, n-d diagonals, user-defined operators, '
@@ -820,7 +821,7 @@ class Check(PropertyCheck):
         self.stats['toeplitz_configurations_in_scope'] = len(grid)
         if quick:
             core = [(K, n, 'overlap_save', f) for K in (2, 3, 4) for n in (K - 1, 3 * K + 2) for f in (2 * K - 1, 2 * K, 2 * K + 1)]
-            core += [(K, n, m, None) for K in (1, 3) for n in (2, 7) for m in ('dense', 'direct', 'fft', None)]
+            core += [(K, n, m, None) for K, ns in ((1, (2, 7)), (3, (2, 7)), (4, (3, 9))) for n in ns for m in ('dense', 'direct', 'fft', None)]
             core += [(1, 4, None, f) for f in (1, 2, 3)]
             grid = core + rng.sample([g for g in grid if g not in core], 14)
         out = []
@@ -978,7 +979,7 @@ class Check(PropertyCheck):
             'and wide blocks, nested) and lazy transposes of wide leaves [quick: 9-11 fixed + 5 sampled per combination]; '
             'the configuration scope: Toeplitz K in 1..4 x n in {1,2,3,5,8,13} x {dense, direct, fft, overlap_save, '
             'default} x explicit FFT sizes 2K-1..2K+4, batched bands and data, configured operators inside composites '
-            '[quick: 35 fixed incl. odd and even sizes at K > n and over several blocks + 14 sampled + 10 batched + 3 '
+            '[quick: 45 fixed incl. every method at K > n and odd and even sizes at K > n and over several blocks + 14 sampled + 10 batched + 3 '
             'composites]; lazy inverses under the solvers CG / BiCGStab / GMRES / NormalCG / LU / Auto, with a '
             'preconditioner, on a non-symmetric operand, inside a block. Non-trivial: the class of the operator overrides '
             'as_matrix, the structure has several leaves, the output dtype is wider than the input dtype, or the operator '
